@@ -29,3 +29,16 @@ impl Default for Indentation {
         Indentation::Spaces(4)
     }
 }
+
+/// Verification hook (only with `--cfg deb822_verif`): expose the crate-private
+/// lexer so that the token partition can be compared with a formal model.
+#[cfg(deb822_verif)]
+pub fn verif_lex(input: &str, start_of_line: bool) -> Vec<(u16, String)> {
+    if start_of_line {
+        lex::lex(input).map(|(k, t)| (k as u16, t.to_string())).collect()
+    } else {
+        lex::lex_inline(input)
+            .map(|(k, t)| (k as u16, t.to_string()))
+            .collect()
+    }
+}
